@@ -495,7 +495,17 @@ func (t *baseTree) Match(path string, header http.Header) (Leaf, Params, bool) {
 		return nil, nil, false
 	}
 
+	// Drop values left behind by branches that were tried before the matched one.
+	binds := getParentBindSet(leaf.getParent())
+	for _, bind := range leaf.getBinds() {
+		binds[bind] = struct{}{}
+	}
 	for k, v := range params {
+		if _, ok := binds[k]; !ok {
+			delete(params, k)
+			continue
+		}
+
 		unescaped, err := url.PathUnescape(v)
 		if err == nil {
 			params[k] = unescaped
